@@ -160,6 +160,18 @@ def mc_property(v, tier, seed, name, prof, fields=mc_suite.ALL_FIELDS, noids=Fal
                     if sx != sy:
                         return (f"run {k}: with the visited-state cache the implementation evaluates {len(sx)} distinct states, without it {len(sy)}; "
                                 f"e.g. never evaluated with the cache: {sorted(sy - sx)[:1]}")
+        # (c) C10: an error reported by BFS must be at minimal depth.  The model's BFS is proved minimal
+        #     (bfs_err_min_depth) and its error state comes with a trace, i.e. a genuine shallower violating state
+        if v.pid == "C10":
+            i3, m3 = run_pair("mc", [mc_suite.block("k", [l for l in lines if l != "refenum"])], jobs=1)
+            ri3, rm3 = mc_suite.split_runs(i3.get("k", [])), mc_suite.split_runs(m3.get("k", []))
+            runlines = [l for l in lines if l.startswith(("run ", "runfrom "))]
+            for k, (x, y) in enumerate(zip(ri3, rm3)):
+                if k < len(runlines) and runlines[k].split()[1] == "bfs" and x["T"] and y["T"]:
+                    dx, dy = re.search(r" d=(\d+)", x["T"][0]), re.search(r" d=(\d+)", y["T"][0])
+                    if dx and dy and int(dx.group(1)) > int(dy.group(1)):
+                        return (f"run {k}: BFS reports `{x['hdr'].split()[2]}` at depth {dx.group(1)}, but a state at depth {dy.group(1)} "
+                                f"already fails: {y['T'][0][:400]}")
         # (b) does the implementation's own exploration deviate from the reference semantics on this scenario?
         ls = lines if "refenum" in lines else ["refenum"] + lines
         i, m = run_pair("mc", [mc_suite.block("j", ls)], jobs=1)
